@@ -4,7 +4,82 @@ import json, os
 HERE = os.path.dirname(os.path.dirname(os.path.abspath(__file__)))
 BASE = "cd /repo && /venv/bin/python -m pytest -ra -q -p no:cacheprovider --timeout=900 --continue-on-collection-errors"
 
+TECH = "contract-based deductive verification: AST->SMT verification conditions from /repo source, z3 + cvc5"
+ENV = ("Assumes the environment contracts E1-E9 of DESIGN 4.3 (documented behaviour of asyncio.wait/create_task/Task.cancel/gather/Queue, job bodies "
+       "return or raise and do not tamper with the tree), cooperative scheduling (A-COOP), wall clock = loop clock with real arithmetic (A-CLOCK), "
+       "the footprint/rely argument of DESIGN 4.4 (other coroutines write nothing this activation reads except task states, the clock and _running), "
+       "the python-semantics encoding of DESIGN 3.3 and the K-lemma instances; admissible tree = closed, acyclic, fresh members at every level. "
+       "_set_sched_ids is used under an assumed contract (frame only). ")
 CLAIMED = {
+ 'C01': dict(cat='proof', design='6/C01',
+   text="Loop invariants I2 (one task per job, linked both ways) and I3 (a member has a task only if every requirement's task is finished) of "
+        "PureScheduler.co_run, established by the entry loop and preserved by the candidate loop and by every suspension (rely), with the contracts of "
+        "is_done, _create_task, _backlinks and wrapped; a body is entered only by wrapped, after its task exists. Discharged for an arbitrary member set and "
+        "requirement relation. A nested scheduler is a member whose body contract is the same co_run contract one level down. Bounded replay of real runs in "
+        "virtual time (both interpreters) runs alongside and is not counted as proof.",
+   note=ENV + "Residual: that asyncio runs a task's coroutine only after create_task returned (E2).", tech=TECH),
+ 'C02': dict(cat='proof', design='6/C02',
+   text="co_run: I2 makes _create_task reachable only for a member without a task (guard is_scheduled), so no member gets two tasks; wrapped calls the body "
+        "exactly once on its normal path and at most once otherwise; Q-true: success implies every non-forever member has a finished delivered task "
+        "(counting invariant I5 + pigeonhole lemma K9) and no delivered critical failure.", note=ENV, tech=TECH),
+ 'C03': dict(cat='proof', design='6/C03',
+   text="What is proved is the scheduler's side of progress: asyncio.wait is never called on an empty set (I1, from the eager invariant I4, closedness and "
+        "acyclicity instantiated at the members without a task, counting lemma K8); wrapped gives its window slot back on every exit (return, exception, "
+        "cancellation); every wait is armed with the remaining timeout. Liveness of the environment itself is assumed. Hang detection on real runs in "
+        "virtual time (bounded) runs alongside.",
+   note=ENV + "Residual: a pending task whose body terminates eventually completes, a blocked Queue.put is woken (E5 liveness), cancelled bodies end (A-HONOUR).",
+   tech=TECH),
+ 'C04': dict(cat='proof', design='6/C04',
+   text="Exit contracts of PureScheduler.co_run (Q-true / Q-false: the recorded cause is exactly timeout-elapsed or a delivered critical failure, never both, "
+        "none after success) and of Scheduler.co_run (a non-critical scheduler returns the verdict; a critical one raises TimeoutError for a timeout and the very "
+        "exception object of one of its critical members for a critical failure; the 'internal error' raise is unreachable), plus failed_time_out / "
+        "failed_critical / why as functions of the recorded cause, for all timeouts >= 0.",
+   note=ENV + "Reading: 'raised' means delivered by asyncio.wait (DESIGN 6.0).", tech=TECH),
+ 'C05': dict(cat='proof', design='6/C05',
+   text="On the critical branch of co_run no _create_task call is reachable, _tidy_tasks asks every still-pending task to cancel at the instant the deciding "
+        "wait returned (exact effect of Task.cancel in the contract of _tidy_tasks, zero-time contract of the gather in between), and the run returns only "
+        "through _tidy_tasks and co_shutdown with all its tasks not pending (Q-clean). Bounded replay checks the instants on real runs.",
+   note=ENV + "Residual: that a cancelled body actually stops (E4/A-HONOUR).", tech=TECH),
+ 'C06': dict(cat='other', design='6/C06',
+   text="Proved mechanisms: wrapped gives the slot back when the body raises; is_done counts a raised requirement as done (I3); the exception object the task "
+        "holds is the one the body raised; delivered non-critical failures never reach the abort branch (I1/loop 2). The relational statement itself (two runs "
+        "differing only in outcomes have the same timed trace) is checked on metamorphic pairs of real runs in virtual time (bounded).",
+   note=ENV + "Residual: equality of whole timed traces of two runs is not expressible as a contract on one call.", tech=TECH),
+ 'C07': dict(cat='proof', design='6/C07',
+   text="Per-activation contract of Window.run_job.<locals>.wrapped against the asyncio.Queue contract: the body is called only while this activation holds "
+        "exactly one queue item (put returned, get not yet called), on every exit its contribution is zero; Window.__init__ makes a queue whose maxsize is the "
+        "window (0 for None); co_run makes one fresh Window per call and passes it to every _create_task of that call (I2: twin). Hence bodies in progress <= "
+        "queue size <= maxsize.",
+   note=ENV + "The summation step (bodies in progress <= sum of contributions = qsize) is the Owicki-Gries composition argument of DESIGN 6.0, on paper.", tech=TECH),
+ 'C08': dict(cat='proof', design='6/C08',
+   text="_record_beginning sets the deadline to now + timeout at the start of this scheduler's own run; every wait is armed with deadline - now; the timeout "
+        "branch is entered only from an empty batch, which E1 allows only once the timeout elapsed; then the same abort contract as C05 and the timeout cause is "
+        "recorded (also for timeout 0).", note=ENV, tech=TECH),
+ 'C09': dict(cat='proof', design='6/C09',
+   text="Counting invariant I5 over non-forever members only; the success branch is taken at the first batch that completes the count, cancels what is still "
+        "pending at that instant and creates nothing afterwards; the candidate rule (I3/I4) does not look at the forever flag.", note=ENV, tech=TECH),
+ 'C10': dict(cat='other', design='6/C10',
+   text="Proved: Scheduler.co_run satisfies the body contract the parent assumes of any member (returns or raises, everything it started is finished: "
+        "Q-clean), a non-critical nested scheduler returns False, a critical one raises the identical exception object of its critical member. The "
+        "nested-vs-flattened timing equivalence is checked on pairs of real runs in virtual time (bounded).",
+   note=ENV + "Residual: the flattening equivalence relates two programs; only the bounded twins speak to it.", tech=TECH),
+ 'C11': dict(cat='proof', design='6/C11',
+   text="Q-clean is a postcondition on every exit of co_run, Scheduler.co_run, co_shutdown and _tidy_tasks: normal, exceptional, and CancelledError raised at each "
+        "suspension point (every await has a cancellation edge in the generator). Five genuine defects found by these obligations were repaired in /repo "
+        "(known_findings.json).", note=ENV, tech=TECH),
+ 'C12': dict(cat='other', design='6/C12',
+   text="Proved: eager invariant I4 (a member without a task is held back by an undelivered requirement) at every loop head, BL (_backlinks), no suspension "
+        "between entry and the first tasks, slot conservation in wrapped. 'At the very instant' and 'no eligible job waits while a slot is free' additionally need "
+        "asyncio's zero-delay delivery; they are measured on real runs in virtual time (bounded).",
+   note=ENV + "Residual: timing clauses of E1/E2/E5.", tech=TECH),
+ 'C13': dict(cat='proof', design='6/C13',
+   text="Contract of co_shutdown: one shutdown task per member exactly when _did_shutdown was not set, none and True otherwise; no task of it left pending on any "
+        "exit; result True iff no handler was cancelled; the wait is armed with shutdown_timeout; co_run calls it on every normal exit after its own tasks are "
+        "finished.", note=ENV + "Handlers that raise: documented as unspecified.", tech=TECH),
+ 'C14': dict(cat='proof', design='6/C14',
+   text="Each accessor is verified to be the stated function of (_task, task state, _running); wrapped sets _running only after it got its slot and returns / "
+        "raises exactly what the body did; _create_task links job and task without suspension; _reset_tasks. Monotonicity under the rely. Sampled on real runs "
+        "at every trace event (bounded).", note=ENV + "First run of each job object only (_running is not reset).", tech=TECH),
  'C15': dict(cat='proof', design='6/C15',
    text="Contracts on _reset_marks, topological_order (generator, as a procedure over a ghost yield log) and check_cycles; "
         "loop invariants T0-T4 discharged for an uninterpreted job set and requirement relation (no bound on the graph). "
@@ -15,7 +90,12 @@ CLAIMED = {
    note="Assumes: closed scheduler (precondition, as in the statement); python semantics encoding of DESIGN 3.3 (ints mathematical, "
         "identity equality, arbitrary set iteration order); finite-cardinality lemma instances K2-K4; attribute reads do not raise. "
         "Not yet under contract: Scheduler.check_cycles recursion and _set_sched_ids/list() numbering (covered by the bounded part only).",
-   tech="contract-based deductive verification: AST->SMT verification conditions from /repo source, z3 + cvc5"),
+   tech=TECH),
+ 'C16': dict(cat='proof', design='6/C16',
+   text="Contract of the recursive sanitize over the flat tree predicates (under/owner): afterwards every link set below the scheduler is the old one "
+        "restricted to the members of its own scheduler (closed, and minimal: nothing between two members is removed), result True iff every object below was "
+        "clean, frame = link sets below self only; recursion measured by height. The polarity defect D12 found by this contract was repaired.",
+   note="Assumes the tree axioms L5 (lemmas/Tree.lean) for owner/under/height and the encoding of DESIGN 3.3.", tech=TECH),
  'C17': dict(cat='proof', design='6/C17',
    text="Contracts on _backlinks, _neighbours (specialised for the two attribute names), predecessors, successors, "
         "_neighbours_closure, predecessors_upstream, successors_downstream, entry_jobs, exit_jobs. Closures are specified as least "
@@ -23,8 +103,7 @@ CLAIMED = {
         "invariants and the termination variant are discharged without bound on the graph.",
    note="Assumes: closed scheduler for the successor-based queries, start jobs are members (as in the statement), encoding of DESIGN 3.3, "
         "K-lemma instances. 'Least closed set = reachable through >= 1 links' is lemma L2 (paper/Lean, not SMT). iterate_jobs is so far "
-        "covered by the bounded part only.",
-   tech="contract-based deductive verification: AST->SMT verification conditions from /repo source, z3 + cvc5"),
+        "covered by the bounded part only.", tech=TECH),
 }
 
 def main():
